@@ -1,4 +1,4 @@
-import Tup.Lemmas.RespMulti
+import Tup.Lemmas.RespDec
 /-!
   C19 — terminal responses are parsed completely, in order, and never invented.
 
@@ -10,10 +10,9 @@ import Tup.Lemmas.RespMulti
   value, any UTF-8 message not containing `ESC \`), the record a correct reader must return
   (`expected`), and the ECMA-48 cursor position report.
 
-  `decodable w` says the strings of `w` pass the model's UTF-8 decoder `utf8Valid`.  `wf` already
-  demands UTF-8 in the specification's own formulation `isUtf8`; the two are compared with each
-  other and with CPython on enumerated inputs by the harness (`utf8` cases), not yet by a theorem.
-  TODO: prove `Spec.Response.isUtf8 s = Response.utf8Valid s` and drop the `decodable` hypotheses.
+  UTF-8: `wf` demands it in the specification's own formulation (`isUtf8`, code point arithmetic);
+  `Lemmas/RespUtf8` proves that this implies the model's decoder (`utf8Valid`, byte-range table)
+  accepts, so no decoding hypothesis is left in the statements.
 -/
 namespace Tup.C19
 open Tup Tup.Response Tup.RespLemmas
@@ -23,10 +22,9 @@ open Tup.Spec.Response (Wf Key encode expected wf noiseOk encodeCpr cprNoiseOk)
     bytes after it, the call returns exactly the fields sent (`i`, `I`, `p`, the other keys in order,
     the message), `is_ok` iff the message is `OK`, `non_response` = the noise, `is_valid`, and leaves
     exactly the bytes after the response unread. -/
-theorem response_roundtrip (noise rest : Bytes) (w : Wf) (hw : wf w = true) (hn : noiseOk noise = true)
-    (hd : decodable w = true) :
+theorem response_roundtrip (noise rest : Bytes) (w : Wf) (hw : wf w = true) (hn : noiseOk noise = true) :
     receive (noise ++ encode w ++ rest) = (.resp (toResp (expected noise w)), rest) :=
-  receive_encoded noise rest w hw hn hd
+  receive_encoded noise rest w hw hn (decodable_of_wf w hw)
 
 /-- `is_ok` is set exactly for the message `OK`. -/
 theorem is_ok_iff (noise : Bytes) (w : Wf) :
@@ -36,10 +34,11 @@ theorem is_ok_iff (noise : Bytes) (w : Wf) :
 /-- Consecutive responses are returned one per call, in arrival order, each with the noise that
     preceded it, nothing lost in between; the list ends when what remains holds no complete response. -/
 theorem multiple_in_order (items : List (Bytes × Wf)) (tail : Bytes)
-    (hall : ∀ it ∈ items, ItemOk it) (ht : ¬ HasComplete tail) :
+    (hall : ∀ it ∈ items, wf it.2 = true ∧ noiseOk it.1 = true) (ht : ¬ HasComplete tail) :
     receiveMultiple (stream items tail) = some (items.map fun it => toResp (expected it.1 it.2)) := by
   unfold receiveMultiple
-  exact receiveMultipleAux_stream items tail _ (by have := length_le_stream items tail; omega) hall ht
+  exact receiveMultipleAux_stream items tail _ (by have := length_le_stream items tail; omega)
+    (fun it hit => ⟨(hall it hit).1, (hall it hit).2, decodable_of_wf it.2 (hall it hit).1⟩) ht
 
 /-- No complete response (`ESC _ G … ESC \`) in what arrived before the deadline — in particular any
     truncated response — gives an invalid result that hands back every byte as `non_response`;
@@ -80,7 +79,7 @@ theorem cpr_timeout (s : Bytes) (h : cprNoiseOk s = true) : getCursorPosition s 
 -- The hypotheses are satisfiable (a response with all three ids, two other keys, a UTF-8 message):
 example : let w : Wf := ⟨[.imageId 4294967295, .extra (asc "k") (some (asc "v")), .placementId 7, .extra (asc "i") none],
                          some (asc "ENOENT:é;=,")⟩
-    wf w = true ∧ decodable w = true ∧ noiseOk (asc "ab\x1b_") = true := by decide
+    wf w = true ∧ noiseOk (asc "ab\x1b_") = true := by decide
 example : ¬ HasComplete (asc "\x1b_Gi=1;O") := by
   intro ⟨a, b, c, h⟩
   have : (92 : UInt8) ∈ asc "\x1b_Gi=1;O" := by rw [h]; simp [term]
